@@ -12,10 +12,22 @@
        forall H ver ops, root H ver ops = spec H ver ops.
    It is refuted for histories that Delete the empty key "" while the root node has a non-empty
    partial key (known finding delete-exhausted-key, pinned by Test_Trie_deleteAtNode):
-   C01_empty_key_delete_refuted.  C01_root_spec is the full statement outside that guard. *)
+   C01_empty_key_delete_refuted.  C01_root_spec is the full statement outside that guard.
+
+   What "the Polkadot/Substrate Merkle-Patricia root of that map" is here (audit note): the trie
+   SHAPE of the specification is built independently of the Go insertion/deletion algorithm
+   (Spec.build: longest common prefix + bucketing; C01_spec_trie_adequate: it is canonical, its entry
+   list is the map, every other representing trie equals it).  The node ENCODING (header variants
+   and the 63/31/15 length escape, LE key packing, children bitmap, SCALE lengths, inline-or-hash of
+   values and of child encodings) is one Gallina function, Trie.Encode.enc, used by the
+   specification root and by the model alike: the theorems do not relate it to an independent
+   rendition of the encoding rules.  It is tied to the outside world by known answers: the empty
+   root constant and hand-derived node encodings below (the C01_known_answer Examples), and, in the thorough
+   tier, the public genesis hashes of Westend, Paseo and Kusama (state version 0 only). *)
 From Common Require Import Bytes Blake2b.
 From Trie Require Import Nibbles Node Encode Model Spec.
 From C01 Require Import Model Proofs.
+From C01 Require Gen.
 
 (* for every history that does not meet the guard: the node's root is the spec root of the map *)
 Theorem C01_root_spec_partial : forall H ver ops,
@@ -70,6 +82,92 @@ Proof.
          |exists witness_nested_delete; exact pinned_nested_delete_refuted].
 Qed.
 Print Assumptions C01_pinned_refuted.
+
+
+(* ---------------- added by the audit round ---------------- *)
+
+(* "for every finite key/value map": every sorted association list m is denoted by some history
+   (of inserts only), and every history that denotes m (outside the guard) has the spec root of m *)
+Theorem C01_root_every_map : forall H ver m, bm_sorted m = true ->
+  (exists ops, puts_only ops = true /\ map_of ops = m) /\
+  (forall ops, hits_delete_exhausted None ops = false -> map_of ops = m ->
+     root H ver ops = spec_root_bytes H ver m).
+Proof. exact root_of_every_map. Qed.
+Print Assumptions C01_root_every_map.
+
+(* the trie the specification root is the hash of: canonical, holds exactly the map, unique *)
+Theorem C01_spec_trie_adequate : forall m, bm_sorted m = true ->
+  let st := build_trie (kv_of_bmap m) in
+  Trie.InsertProofs.Canon_opt st /\ entries st = kv_of_bmap m /\
+  (forall k, Trie.Sem.lookup_opt st (key_le_to_nibbles k) = bm_get m k) /\
+  (forall t, Trie.MapProofs.Rep t m -> t = st).
+Proof. exact spec_trie_adequate. Qed.
+Print Assumptions C01_spec_trie_adequate.
+
+(* the root theorem rests on structural uniqueness: the state after the history is, node for
+   node, the specification trie of the denoted map (hence equal encodings for every H) *)
+Theorem C01_state_is_spec_trie : forall ops, hits_delete_exhausted None ops = false ->
+  run ops = build_trie (kv_of_bmap (map_of ops)) /\ bm_sorted (map_of ops) = true.
+Proof. intros ops G. split; [exact (run_is_spec_trie ops G)|exact (map_of_sorted ops G)]. Qed.
+Print Assumptions C01_state_is_spec_trie.
+
+(* the inline rule with the constant read from pkg/trie/layout.go (V1MaxInlineValueSize), and the
+   two leaf encodings it selects; version 0 never hashes a value *)
+Theorem C01_inline_rule_gen : forall H ver pk v,
+  (must_be_hashed ver v = true <-> ver = V1 /\ Z.to_nat Gen.v1_max_inline_value_size < length v) /\
+  (must_be_hashed ver v = false ->
+     enc H ver (Leaf pk v) = header leaf_bits 63 (N.of_nat (length pk)) ++ nibbles_to_key_le pk ++ scale_bytes v) /\
+  (must_be_hashed ver v = true ->
+     enc H ver (Leaf pk v) = header leaf_hashed_bits 31 (N.of_nat (length pk)) ++ nibbles_to_key_le pk ++ H v) /\
+  must_be_hashed V0 v = false.
+Proof.
+  intros H ver pk v. split; [exact (must_be_hashed_gen ver v)|].
+  split; [exact (enc_leaf_inline H ver pk v)|]. split; [exact (enc_leaf_hashed H ver pk v)|reflexivity].
+Qed.
+Print Assumptions C01_inline_rule_gen.
+
+(* known answers (not derived from the Go code): the empty state root is the well-known constant
+   03170a2e7597b7b7e3d84c05391d139a62b157e78786d8c082f29dcf4c111314 = BLAKE2b-256(0x00) *)
+Example C01_known_answer_empty :
+  spec blake2b_256 V0 [] =
+  map n2b [3;23;10;46;117;151;183;183;227;216;76;5;57;29;19;154;98;177;87;231;135;134;216;192;130;242;157;207;76;17;19;20]%N
+  /\ root blake2b_256 V1 [] = spec blake2b_256 V0 [].
+Proof. vm_compute. split; reflexivity. Qed.
+
+(* node encodings written out by hand from the Polkadot specification (section "Trie", node header
+   = variant bits + partial key length, key nibbles packed big-end first with a leading half byte
+   when odd, SCALE compact length before an inlined value, 2-byte little-endian children bitmap):
+   - leaf, key nibbles 0 1, value aa:            0x42            01  04 aa
+   - leaf, odd key nibbles 1 2 3, value (empty): 0x43            01 23  00
+   - branch without value, no partial key, children 1 and 15 (each an inlined leaf of 3 bytes
+     40 04 xx under SCALE length 0c):            0x80  02 80  0c 40 04 aa  0c 40 04 bb
+   - branch with value cc, partial key nibble 7, child 0:  0xc1 07  01 00  04 cc  0c 40 04 aa *)
+Example C01_known_answer_encodings :
+  enc blake2b_256 V0 (Leaf [0;1]%nat [n2b 170]) = map n2b [66;1;4;170]%N /\
+  enc blake2b_256 V1 (Leaf [1;2;3]%nat []) = map n2b [67;1;35;0]%N /\
+  enc blake2b_256 V0 (Branch []%nat None
+      (set_child (set_child no_children 1 (Some (Leaf []%nat [n2b 170]))) 15 (Some (Leaf []%nat [n2b 187]))))
+    = map n2b [128;2;128;12;64;4;170;12;64;4;187]%N /\
+  enc blake2b_256 V1 (Branch [7]%nat (Some [n2b 204]) (set_child no_children 0 (Some (Leaf []%nat [n2b 170]))))
+    = map n2b [193;7;1;0;4;204;12;64;4;170]%N.
+Proof. vm_compute. repeat split; reflexivity. Qed.
+
+(* header length escape: 62, 63, 64 and 63+255 nibbles in a leaf (mask 63); 30, 31, 32 in a leaf
+   with a hashed value (mask 31); 14, 15, 16 in a branch with a hashed value (mask 15) *)
+Example C01_known_answer_headers :
+  map (header leaf_bits 63) [62; 63; 64; 318]%N =
+    [map n2b [126]; map n2b [127; 0]; map n2b [127; 1]; map n2b [127; 255; 0]]%N /\
+  map (header leaf_hashed_bits 31) [30; 31; 32]%N = [map n2b [62]; map n2b [63; 0]; map n2b [63; 1]]%N /\
+  map (header branch_hashed_bits 15) [14; 15; 16]%N = [map n2b [30]; map n2b [31; 0]; map n2b [31; 1]]%N.
+Proof. vm_compute. repeat split; reflexivity. Qed.
+
+(* a child encoding of exactly 31 bytes is embedded, one of 32 bytes is referenced by its hash *)
+Example C01_known_answer_child_threshold :
+  let leaf n := Leaf [1]%nat (repeat (n2b 7) n) in
+  length (enc blake2b_256 V0 (leaf 28%nat)) = 31%nat /\ length (enc blake2b_256 V0 (leaf 29%nat)) = 32%nat /\
+  merkle_value blake2b_256 V0 (leaf 28%nat) = enc blake2b_256 V0 (leaf 28%nat) /\
+  merkle_value blake2b_256 V0 (leaf 29%nat) = blake2b_256 (enc blake2b_256 V0 (leaf 29%nat)).
+Proof. vm_compute. repeat split; reflexivity. Qed.
 
 (* non-vacuity: a branch with a value and an inlined child; a delete that merges a branch back into
    a leaf; a 64-nibble partial key; version 1 with a 33-byte value *)
